@@ -13,7 +13,7 @@ EXPECTED_PROBES = ["c11-pairs-judged", "c11-inner-pairs-judged", "c11-carried-ov
                    "c11-engine-parents-checked", "c11-cma-countiter-checked"]
 ASSUMPTIONS = ["a generation is 'completed' at the GSC consult its deme makes right after producing it (generation 0: when the deme's construction ends)"]
 
-PROFILE = P.profile(gens=[2, 2, 3, 4], p_cutoff=0.2, entry_w={"tree": 9, "hms": 1, "minimize": 0},
+PROFILE = P.profile(gens=[2, 2, 3, 4], p_no_elite=0.1, p_cutoff=0.2, entry_w={"tree": 9, "hms": 1, "minimize": 0},
                     root_engines={"ea": 6, "de": 3, "shade": 3, "lhs": 0.3, "sobol": 0.3, "custom": 0.2},
                     leaf_engines={"ea": 4, "de": 3, "shade": 3, "cma": 3, "local": 0.5},
                     metaepochs=[2, 8])
